@@ -6,7 +6,7 @@ from engine import site
 CONFIGS = ['prod']
 EXPLANATION = (
     'Decided clauses: SEM the actor loop (found by role: the coroutine that receives from a channel and advances an HLCTimestamp) is interpreted '
-    'sequentially on the queue [Get, Register r1, Get, Register r2] (actor_abs): it issues one stamp per Get and answers exactly that stamp, merges '
+    'sequentially on the queue [Get, Register r1, Get, Register r2], every registered stamp both accepted and refused by the clock (actor_abs; a refusal leaves the clock as it was): it issues one stamp per Get and answers exactly that stamp, merges '
     'every registered stamp, in queue order, consuming every event; K1 who-may-call — outside datacake-crdt the only callers of HLCTimestamp::send / ::recv are inside the clock '
     'actor loop (floor 2 sites, ceiling: none elsewhere); K2 one owner — no field of Clock holds clock state or a shared cell over it '
     '(channel endpoints excepted), the actor takes the timestamp by value, Clock::new moves the single receiver into exactly one spawned '
